@@ -1,7 +1,7 @@
 #!/bin/bash
 # tools/run_all.sh [tier]  -- run every claimed check on /repo; summary at the end
 tier=${1:-quick}
-cd /verif
+cd "$(dirname "$0")/.."
 ids=$(/venv/bin/python -c "import json;print(' '.join(c['property_id'] for c in json.load(open('MANIFEST.json'))['checks']))")
 fail=0
 for id in $ids; do
